@@ -9,7 +9,9 @@ import time
 
 import bv
 from bv.engine.acc import Acc, dumps, jsonable, unjson
-from bv.engine.pool import HarnessError
+import traceback
+
+from bv.engine.pool import HarnessError, CheckCrashed
 
 VERIF = bv.VERIF
 FINDINGS_FILE = os.path.join(VERIF, "known_findings.json")
@@ -90,8 +92,20 @@ def run_check(prop, tier, seed):
     if os.environ.get("BV_BUDGET"):
         budget[tier] = float(os.environ["BV_BUDGET"])
     deadline = t0 + budget[tier]
-    acc = mod.run(tier, seed, deadline)
-    assert isinstance(acc, Acc)
+    try:
+        acc = mod.run(tier, seed, deadline)
+        assert isinstance(acc, Acc)
+    except HarnessError:
+        raise
+    except Exception as err:
+        # an exception escaped from the library into the check: never on the unchanged tree; on a changed tree it is
+        # what the change did, so it is reported (with the traceback) instead of a bare crash
+        text = str(err) if isinstance(err, CheckCrashed) else "%r\n%s" % (err, traceback.format_exc())
+        last = [l for l in text.strip().splitlines() if l.strip()][-1][:160]
+        acc = Acc()
+        acc.evaluations = 1
+        acc.fail("check-crashed:%s" % last, {"traceback": text[-3000:]}, {"crash": text[-3000:]})
+        acc.cap("the check stopped at the first unanticipated exception")
     wall = time.time() - t0
 
     known = load_findings(prop)
@@ -156,6 +170,10 @@ def run_replay(path):
     rc = 0
     for c in data.get("cases", []):
         case = unjson(c["case"])
+        if isinstance(case, dict) and "crash" in case and len(case) == 1:
+            print("the check itself crashed on this tree; re-run ./check %s to reproduce:\n%s" % (prop, case["crash"]))
+            rc = 1
+            continue
         ok, text = mod.replay(case)
         print("replay property=%s signature=%s -> %s" % (prop, data.get("signature"), "holds" if ok else "FAILS"))
         print("  " + str(text).replace("\n", "\n  ")[:4000])
